@@ -25,6 +25,8 @@ SIG_F4 = "C18/poll-partial-shrink-replaces-index-dropping-untouched-pages"
 SIG_F5 = "C18/poll-l1-overlaid-over-newer-l0"
 SIG_L1SHRINK = "C18/poll-l1-commit-below-polled-l0-commit-replaces-index"
 SIG_OPEN = "C18/open-index-keeps-pages-beyond-commit-after-shrink"
+SIG_HYD_RESET = "C18/resettime-while-hydrated-jumps-pos-hydrated-file-misses-transactions"
+SIG_HYD = "C18/hydrated-read-differs-from-restore-with-correct-index"
 SIG_TT = "C18/time-travel-view-differs-from-timestamp-restore"
 SIG_RT = "C18/reset-view-differs-from-latest-restore"
 SCHED_KINDS = ("tt-set", "tt-unlock", "tt-poll", "rt-reset", "rt-unlock")
@@ -37,6 +39,10 @@ WHAT = {
             "below the position reached through L0 puts older page versions back",
     SIG_L1SHRINK: "pollLevel(1) starts from the commit reached by the L0 poll; an L1 file with a smaller commit (database grew in a "
                   "later L0 transaction) fires the replace rule and the index keeps only the pages of the polled L1 files",
+    SIG_HYD_RESET: "ResetTime (PRAGMA litestream_time = LATEST) on a file whose reads are served from the hydrated copy and that is "
+                   "not time travelling: rebuildIndex moves pos to the latest TXID, no poll will ever apply the skipped "
+                   "transactions to the hydrated file, and ReadAt serves those pages stale",
+    SIG_HYD: "reads served from the hydrated local file differ from the restore at Pos() although the index is the restore's",
     SIG_TT: "after SetTargetTime (with Lock, a poll staged in the pending index, Unlock around it) the view is not the "
             "timestamp restore for the target time",
     SIG_RT: "after ResetTime (with Lock, a poll staged in the pending index, Unlock around it) the view is not the restore "
@@ -60,7 +66,8 @@ def gen_cases(v, out):
             os.remove(os.path.join(out, name))
         except FileNotFoundError:
             pass
-    rc, o = C.sh([C.harness_bin("vfs"), "vfs", "-out", out, "-n", str(n), "-seed", str(v.seed)], cwd=out, timeout=20000)
+    rc, o = C.sh([C.harness_bin("vfs"), "vfs", "-out", out, "-n", str(n), "-seed", str(v.seed),
+                   "-variants", "2" if v.tier == "quick" else "3"], cwd=out, timeout=20000)
     if rc == 0 and not (os.path.exists(os.path.join(out, "cases.txt")) and os.path.exists(os.path.join(out, "stats.json"))):
         return False, "harness exited 0 but wrote no cases.txt / stats.json under %s: %s" % (out, o[-500:])
     return rc == 0, o
@@ -198,7 +205,13 @@ def analyse(v, out, cases, stats, mism):
                 by_sig[sig] = {"n": 0, "first": p, "detail": detail, "dom": dom}
             by_sig[sig]["n"] += 1
             continue
-        if not oracle_bad:
+        if (not oracle_bad) and p.get("hydrated"):
+            # the index is right, the bytes come from the hydrated copy
+            if (not p.get("ever_tt")) and p["kind"] in ("rt-reset", "rt-unlock", "reset"):
+                sig = SIG_HYD_RESET
+            else:
+                sig = SIG_HYD
+        elif not oracle_bad:
             sig = "C18/read-differs-with-correct-index"
         elif p["kind"] in ("open", "reset", "timetravel"):
             if dom == 0 and size_only:
@@ -236,6 +249,12 @@ def analyse(v, out, cases, stats, mism):
                      "how": "h_vfs vfs -script '<script>' ; ./check C18 --replay <this file>",
                      "case_lines": (C.case_with_defs(cases, p["model_line"]) if p.get("model_line") else [])[:40]}, True)
     return {"check_points": len(points), "check_points_failing": len(failing),
+            "check_points_served_from_hydrated_file": len([p for p in points if p.get("hydrated")]),
+            "hydration": "compared on every check point of the hydrated variants (ReadAt warm + cold, FileSize vs restore); "
+                         "modelled in coq/Vfs/Hydration.v as the reads-from-hydrated flag (part of the vfs_step correspondence) and a "
+                         "ghost image updated by ApplyUpdates (theorem vfs_hydrated_image_agrees_with_index); the hydrated "
+                         "file's bytes, Restore/CatchUp inside runHydration and races with the hydration goroutine are "
+                         "compared / not scheduled, not modelled",
             "check_points_reference_restore_undefined_on_replica": unjudged,
             "failing_by_signature": {k: d["n"] for k, d in by_sig.items()},
             "points_by_kind": _count(points, "kind")}
@@ -289,8 +308,9 @@ def run(v):
         "rule": "histories over a real litestream DB + SQLite application connection (page sizes 512/1024/4096, "
                 "auto_vacuum=incremental): inserts, updates, deletes, incremental_vacuum(n), VACUUM, sync, Compact(1), "
                 "Compact(2), Snapshot, L0 retention, snapshot+TXID retention, interleaved with VFS open, poll, "
-                "lock-poll-unlock, time travel and reset, and schedules Lock; Poll (staged in the pending index); [more writes + sync]; SetTargetTime(earlier time) | ResetTime; [Poll]; Unlock; [Poll]; ResetTime on a VFSFile over the file replica (1-page and 10 MiB page cache). "
-                "21 directed histories (the shapes of F4/F5 and neighbours) run with both cache sizes, then seeded random ones. "
+                "lock-poll-unlock, time travel and reset, and schedules Lock; Poll (staged in the pending index); [more writes + sync]; SetTargetTime(earlier time) | ResetTime; [Poll]; Unlock; [Poll]; ResetTime on a VFSFile over the file replica (1-page and 10 MiB page cache), and the same schedules through VFS.Open with HydrationEnabled, started once "
+                "hydration is complete (reads from the hydrated local file; hydration races are not scheduled). "
+                "24 directed histories (the shapes of F4/F5 and neighbours) run with both cache sizes, then seeded random ones. "
                 "Per check point: ReadAt of every page, once with the cache as the history left it and once with a purged (cold) "
                 "cache, and FileSize vs Restore(TXID=Pos()) bytes (page-1 bytes 18,19,24..27 masked); a page indexed into a file "
                 "that retention deleted while Restore(TXID=Pos()) succeeds is a violation; the index vs the model (vfs_open / vfs_poll / vfs_lockop / vfs_step) and vs the L0-ledger oracle "
